@@ -280,12 +280,15 @@ class Explorer:
         sc = self.sc
         xpos, xquat, gx = np.array(d.xpos), np.array(d.xquat), None
         mp, mq = np.array(d.mocap_pos), np.array(d.mocap_quat)
+        roots = {}
         for b, r, mid, rp, rq, geoms in sc.rigid:
-            if mid >= 0:
-                p0, q0 = mp[mid], mq[mid] / np.linalg.norm(mq[mid])
-            else:
-                p0, q0 = sc.root_pos[r], sc.root_quat[r]
-            R0 = quat2mat(q0)
+            if r not in roots:
+                if mid >= 0:
+                    p0, q0 = mp[mid], mq[mid] / np.linalg.norm(mq[mid])
+                else:
+                    p0, q0 = sc.root_pos[r], sc.root_quat[r]
+                roots[r] = (p0, q0, quat2mat(q0))
+            p0, q0, R0 = roots[r]
             p, q = p0 + R0 @ rp, quat_mul(q0, rq)
             if np.abs(xpos[b] - p).max() > 1e-12 or np.abs(xquat[b] - q).max() > 1e-12:
                 return "body %d (root %d, %s): xpos=%s xquat=%s expected %s %s" % (b, r, "mocap" if mid >= 0 else "static", xpos[b], xquat[b], p, q)
@@ -549,6 +552,12 @@ class Explorer:
         bad = self.derived_ok(d)
         if bad:
             self.viol("derived sleep arrays differ from a recomputation from tree_asleep", "after mj_resetData: " + bad)
+        # I7 also holds for the positions that mj_resetData itself leaves behind (with sleep enabled it runs kinematics / a
+        # forward pass to initialise the sleep state: that pass must see the mocap bodies at their model poses)
+        bad = self.rigid_ok(d)
+        if bad:
+            self.viol("a dof-less body (static, mocap or welded to a mocap body) is not at the pose given by the model and mocap_pos/mocap_quat",
+                      "after mj_resetData: " + bad)
 
 
 _scenes = {}
